@@ -1,6 +1,7 @@
 package harness
 
 import (
+	"unsafe"
 	"fmt"
 	"net/url"
 	"strings"
@@ -155,6 +156,34 @@ func mpBody(c mpCase) vsched.Body {
 					x.Fail("setup: upgrade did not complete (%s)", id)
 					return
 				}
+			} else if c.carrier == "websocket-early" {
+				// the client sends its frame as soon as it has the open packet, while the application's
+				// connection handler (which takes 300ms) is still running
+				w.OnConnection = func(s *SockRec) {
+					if len(w.Socks) == 2 {
+						vsched.Sleep(300 * time.Millisecond)
+					}
+				}
+				ws = w.DialWS(4, "", false, false, "")
+				payload := []byte("4" + textOfLen(c.size-1))
+				vsched.GoNamed("client", func() {
+					r := ws.Resp
+					vsched.WaitFor(uintptr(unsafe.Pointer(r)), "early-wait-open", func() bool { return r.Conn != nil || r.wrote || r.Returned })
+					if r.Conn == nil {
+						return
+					}
+					p := ws.pipe()
+					vsched.WaitFor(pipeObj(p), "early-wait-open-packet", func() bool { return len(p.toCli) > 0 || p.srvClosed })
+					ws.SendFrame(1, payload)
+				})
+				x.Run(x.Now() + time.Second)
+				if len(w.Socks) != 2 {
+					x.Fail("setup: websocket handshake failed (%s)", id)
+					return
+				}
+				victim = w.Socks[1]
+				wsPipe = ws.pipe()
+				break
 			} else {
 				ws = w.DialWS(4, "", false, false, "")
 				x.Settle()
@@ -288,7 +317,7 @@ func init() {
 						}
 					}
 				}
-				for _, car := range []string{"websocket", "websocket-fragmented", "websocket-upgraded", "webtransport", "webtransport16", "webtransport64"} {
+				for _, car := range []string{"websocket", "websocket-fragmented", "websocket-upgraded", "websocket-early", "webtransport", "webtransport16", "webtransport64"} {
 					if car == "websocket-fragmented" && limit < 4 {
 						continue
 					}
